@@ -13,6 +13,8 @@ from tiv.match import b2s, find_exprs, find_stmts, match_expr, match_stmt
 from tiv.affine import NotPoly, diff, equal, parse
 
 RULES = {
+    "MEMO": "memo safety (shared, rules/common.py): a memoised function in this property's files (or called from them) is a function of its "
+            "arguments only (no terminal/ambient/receiver state outside the key) and no caller mutates its result in place",
     "R1": "relative paddings never reach a computing method: every receiver of get_padded_size/pad/to_exact/_get_exact_dimensions_ in the "
           "renderable/iterator modules is a sanitised padding - resolved by `p.resolve(ts) if isinstance(p, AlignedPadding) and p.relative else p` "
           "(or the equivalent `if`), obtained as the second result of _init_render_, or a field all of whose stores are sanitised",
@@ -84,6 +86,23 @@ def _szc(e):
             return n
     from tiv.astutil import clone
     return T().visit(clone(e))
+
+
+def rule_frame_normalisation(ck, m, rid):
+    """_valid_size resolves each frame dimension independently: d if d > 0 else max(terminal d + d, 1) (shared with C04)."""
+    vs = m.get(CM, "BaseImage._valid_size")
+    norms = [n for n in ast.walk(vs) if isinstance(n, ast.IfExp) and any(isinstance(c, ast.Call) and call_name(c) == "max" for c in ast.walk(n))]
+    okv = False
+    for n in norms:
+        b_ = match_expr("$d if $d > 0 else max($t + $d, 1)", n) or match_expr("max($t + $d, 1) if $d <= 0 else $d", n)
+        if b_ is not None:
+            # the pair (d, t) must come from zip(frame_size, get_terminal_size())
+            par = n._p
+            while par is not None and not isinstance(par, (ast.Lambda, ast.GeneratorExp, ast.ListComp, ast.FunctionDef)):
+                par = par._p
+            src = norm(par._p) if isinstance(par, ast.Lambda) else norm(par)
+            okv = "frame_size" in src and "get_terminal_size()" in src
+    ck.ob(rid, vs, okv, "_valid_size: frame dimensions must be normalised with max(t + d, 1) over (frame_size, get_terminal_size())", stmt="_valid_size: frame normalisation")
 
 
 def rule_format_render(ck, m, rid):
@@ -294,19 +313,7 @@ def run(ck, m):
             got = trace(cfm, rts[0].value.elts[i])
             want = f"{d}__0 if {d}__0 > 0 else max(get_terminal_size().{t} + {d}__0, 1)"
             ck.ob("R3", rts[0], cx(got) == cx(ast.parse(want, mode="eval").body), f"_check_formatting: `{d}` must become max(terminal_size.{t} + {d}, 1) when <= 0; found `{norm(got)[:110]}`", stmt=f"_check_formatting: {d}")
-    vs = m.get(CM, "BaseImage._valid_size")
-    norms = [n for n in ast.walk(vs) if isinstance(n, ast.IfExp) and any(isinstance(c, ast.Call) and call_name(c) == "max" for c in ast.walk(n))]
-    okv = False
-    for n in norms:
-        b_ = match_expr("$d if $d > 0 else max($t + $d, 1)", n) or match_expr("max($t + $d, 1) if $d <= 0 else $d", n)
-        if b_ is not None:
-            # the pair (d, t) must come from zip(frame_size, get_terminal_size())
-            par = n._p
-            while par is not None and not isinstance(par, (ast.Lambda, ast.GeneratorExp, ast.ListComp, ast.FunctionDef)):
-                par = par._p
-            src = norm(par._p) if isinstance(par, ast.Lambda) else norm(par)
-            okv = "frame_size" in src and "get_terminal_size()" in src
-    ck.ob("R3", vs, okv, "_valid_size: frame dimensions must be normalised with max(t + d, 1) over (frame_size, get_terminal_size())", stmt="_valid_size: frame normalisation")
+    rule_frame_normalisation(ck, m, "R3")
     ai = m.get(PD, "AlignedPadding.__init__")
     ck.ob("R3", ai, "_setattr('relative', not width > 0 < height)" in norm(ai), "AlignedPadding.relative must be `not width > 0 < height`", stmt="AlignedPadding.relative definition")
     # resolve() preserves the other fields
@@ -475,7 +482,7 @@ def run(ck, m):
                 ok = okl and okr_ and _szp(nt_, zero) == P(f"{D}[1]") and _szp(nb_, zero) == P(f"{D}[3]") and _szp(ct, zero) == P(f"{D}[1]") and _szp(cb, zero) == P(f"{D}[3]")
                 ck.ob("R5", ret, ok, f"Padding.pad [{tag}]: without fill the margins are cursor movements: CUF left before and CUF right after every line, `top`/`bottom` lines each CUF (left+width+right); "
                       f"found left={cuf(left)}, right={cuf(right)}, top lines={affine.show(nt_)}, bottom lines={affine.show(nb_)}", stmt=f"Padding.pad: margins without fill [{tag}]")
-            if f.get(f"{D}[0]") or f.get(f"{D}[2]"):
+            if emit.truth(ast.parse(f"{D}[0] or {D}[2]", mode="eval").body, f):
                 hz = next((x for x in its[k:k + 1]), None)
                 ck.ob("R5", ret, isinstance(hz, emit.Sym) and hz.text.startswith(("render.replace(", "render__0.replace(")), f"Padding.pad [{tag}]: with a horizontal margin every line (not only the first/last) must be padded", stmt=f"Padding.pad: inner lines padded [{tag}]")
                 rt_ = emit.specialise(rep_term, f)
@@ -483,12 +490,15 @@ def run(ck, m):
                 kk = next((i for i, x in enumerate(rits) if emit.is_nl(x)), None)
                 okp = kk is not None and sum(1 for x in rits if emit.is_nl(x)) == 1 and repr(emit.Seq(rits[:kk])) == repr(right) and repr(emit.Seq(rits[kk + 1:])) == repr(left)
                 ck.ob("R5", ret, okp, f"Padding.pad [{tag}]: per-line right/left padding around each newline; found `{repr(rt_)[:100]}`", stmt=f"Padding.pad: per-line padding [{tag}]")
-    ck.expect(n_cases >= 16, f"Padding.pad: expected >= 16 padded cases, found {n_cases}")
+    ck.expect(n_cases >= 4, f"Padding.pad: expected >= 4 padded cases, found {n_cases}")
 
     from rules.c08 import rule_padded_size_maintained
     from rules.c09 import rule_padding_after_cache
     rule_padded_size_maintained(ck, m, "R6")
     rule_padding_after_cache(ck, m, "R6")
+
+    from rules.common import rule_memo_safety
+    rule_memo_safety(ck, m, "MEMO", "C05")
 
 
 MUTANTS = [
